@@ -149,7 +149,8 @@ PROPS = {
     },
     "C10": {
         "title": "into_seq_iter returns the remainder",
-        "rules": [r_state.rule_seq, r_own.rule_own, r_fwd.rule_fwd, r_ovf.rule_ovf],
+        "rules": [r_state.rule_seq, r_own.rule_own, r_fwd.rule_fwd, r_ovf.rule_ovf, r_m1.rule_prov, r_m1.rule_amt,
+                  r_m1.rule_complete],
         "explanation": "SEQ: the result of each of the 7 into_seq_iter depends on exactly one read of the position counter, used "
                        "as skip count / split index / range offset without arithmetic, clamped to LEN where overshoot is not "
                        "tolerated; the wrapper returns the wrapped iterator itself; adaptors map the inner result by "
@@ -212,7 +213,7 @@ PROPS = {
     },
     "C15": {
         "title": "no leaks",
-        "rules": [r_own.rule_leak, r_own.rule_own, r_own.rule_view],
+        "rules": [r_own.rule_leak, r_own.rule_own, r_own.rule_view, r_own.rule_leak_write],
         "explanation": "LEAK: every ManuallyDrop field owning heap memory is taken and dropped on every normal path of Drop::drop "
                        "(no re-wrap, no forget); leak primitives (mem::forget, Box::leak, into_raw*, ManuallyDrop::new) occur "
                        "only in constructors wrapping the consumed collection and in the exclusive remainder split's re-wrap; "
